@@ -73,6 +73,9 @@ type Engine struct {
 	Lit    *ast.FuncLit // non-nil while a function literal body is analysed
 
 	noFacts map[types.Object]bool
+	noted   map[ast.Node]bool // bodies whose captured/address-taken variables were recorded in noFacts
+	frames  []*Frame          // helper calls being interpreted in place (innermost last)
+	inlined map[*ast.CallExpr][]*ast.Ident
 	quiet   int
 	targets []target
 	brk     map[ast.Stmt][]*State
@@ -95,11 +98,22 @@ type target struct {
 func NewEngine(p *Program, pkg *packages.Package, fd *ast.FuncDecl, c Client) *Engine {
 	e := &Engine{P: p, Pkg: pkg, Info: pkg.TypesInfo, Client: c, Func: fd,
 		noFacts: map[types.Object]bool{}, brk: map[ast.Stmt][]*State{}, cont: map[ast.Stmt][]*State{},
-		labels: map[ast.Stmt]string{}, sites: map[string]*SiteResult{}}
+		labels: map[ast.Stmt]string{}, sites: map[string]*SiteResult{}, noted: map[ast.Node]bool{}, inlined: map[*ast.CallExpr][]*ast.Ident{}}
 	if d := os.Getenv("PQLCHECK_DEBUG"); d != "" && strings.Contains(FuncName(pkg, fd), d) {
 		e.debug = true
 	}
-	// variables assigned inside function literals, or whose address is taken, carry no facts.
+	e.noteBody(fd.Body)
+	// named results assigned in deferred closures are covered by the rule above.
+	return e
+}
+
+// noteBody records the variables of body that carry no facts: those assigned inside function literals
+// (captured), and those whose address is taken.
+func (e *Engine) noteBody(body ast.Node) {
+	if body == nil || e.noted[body] {
+		return
+	}
+	e.noted[body] = true
 	var litStack []*ast.FuncLit
 	captured := func(o types.Object) bool {
 		// declared outside the innermost enclosing literal
@@ -136,9 +150,7 @@ func NewEngine(p *Program, pkg *packages.Package, fd *ast.FuncDecl, c Client) *E
 		}
 		return true
 	}
-	ast.Inspect(fd.Body, walk)
-	// named results assigned in deferred closures are covered by the rule above.
-	return e
+	ast.Inspect(body, walk)
 }
 
 // Reporting is true outside loop fixpoint iterations: only then may obligations be recorded.
@@ -261,6 +273,9 @@ func (e *Engine) stmt(s ast.Stmt, in []*State) []*State {
 	case *ast.BlockStmt, *ast.IfStmt, *ast.ForStmt, *ast.RangeStmt, *ast.SwitchStmt, *ast.TypeSwitchStmt:
 		out = e.pruneScope(out, s)
 	}
+	if _, isRet := s.(*ast.ReturnStmt); !isRet {
+		out = e.pruneInlined(s, out)
+	}
 	return out
 }
 
@@ -347,6 +362,7 @@ func (e *Engine) stmt1(s ast.Stmt, in []*State) []*State {
 			in = e.stmt(s.Init, in)
 		}
 		t, f := e.cond(s.Cond, in)
+		t, f = e.pruneInlined(s.Cond, t), e.pruneInlined(s.Cond, f)
 		out := e.block(s.Body, t)
 		if s.Else != nil {
 			out = append(out, e.stmt(s.Else, f)...)
@@ -366,6 +382,10 @@ func (e *Engine) stmt1(s ast.Stmt, in []*State) []*State {
 		e.labels[s.Stmt] = s.Label.Name
 		return e.stmt(s.Stmt, in)
 	case *ast.ReturnStmt:
+		if len(e.frames) > 0 && e.Lit == nil {
+			e.inlineReturn(s, in)
+			return nil
+		}
 		for _, r := range s.Results {
 			in = e.expr(r, in)
 		}
@@ -870,7 +890,11 @@ func (e *Engine) call(x *ast.CallExpr, in []*State) []*State {
 	if builtin == "panic" {
 		return nil
 	}
-	in = e.hookEach(in, func(st *State) *State { return e.callEffects(st, x, callee, builtin) })
+	if decl := e.inlineTarget(x, callee); decl != nil {
+		in = e.inlineCall(x, callee, decl, in)
+	} else {
+		in = e.hookEach(in, func(st *State) *State { return e.callEffects(st, x, callee, builtin) })
+	}
 	in = e.hookEach(in, func(st *State) *State { return e.Client.PostCall(e, st, x, callee) })
 	return in
 }
@@ -1200,12 +1224,33 @@ func (e *Engine) valueOf(st *State, x ast.Expr) *Fact {
 func (e *Engine) aliasTarget(st *State, r ast.Expr) *keyInfo {
 	r = ast.Unparen(r)
 	switch x := r.(type) {
-	case *ast.Ident, *ast.SelectorExpr, *ast.IndexExpr, *ast.StarExpr:
+	case *ast.Ident:
+		if e.isResultIdent(x) {
+			// the result variable of a helper interpreted in place is short-lived: only what it denotes is kept
+			if o := e.Info.Defs[x]; o != nil {
+				if a := st.facts["val:"+e.objKey(o)]; a != nil && a.Alias != nil {
+					t := *a.Alias
+					return &t
+				}
+			}
+			return nil
+		}
+	case *ast.SelectorExpr, *ast.IndexExpr, *ast.StarExpr:
 	case *ast.TypeAssertExpr:
 		if x.Type == nil {
 			return nil
 		}
 	case *ast.CallExpr:
+		if ids := e.inlined[x]; len(ids) >= 1 {
+			// the result of a helper interpreted in place: the path its result variable denotes, if any
+			if o := e.Info.Defs[ids[0]]; o != nil {
+				if a := st.facts["val:"+e.objKey(o)]; a != nil && a.Alias != nil {
+					t := *a.Alias
+					return &t
+				}
+			}
+			return nil
+		}
 		if !IsBuiltinCall(e.Info, x, "len") && !IsBuiltinCall(e.Info, x, "cap") {
 			return nil
 		}
@@ -1241,6 +1286,15 @@ func (e *Engine) setAlias(st *State, l ast.Expr, target *keyInfo) *State {
 			return st // self-reference: x = x.f
 		}
 	}
+	if e.isResultIdent(id) && len(e.frames) > 0 {
+		// a result variable outlives the helper's locals: it may only denote paths the caller can see
+		d := e.frames[len(e.frames)-1].Decl
+		for _, o := range target.Objs {
+			if o.Pos() >= d.Pos() && o.Pos() < d.End() {
+				return st
+			}
+		}
+	}
 	ak := keyInfo{Key: "val:" + e.objKey(obj), Objs: append([]types.Object{obj}, target.Objs...), Fields: target.Fields, Heap: target.Heap, OK: true}
 	t := *target
 	if n := e.update(st, ak, func(f *Fact) { f.Alias = &t }); n != nil {
@@ -1266,81 +1320,140 @@ func (e *Engine) assign(lhs, rhs []ast.Expr, tok token.Token, stmt ast.Stmt, in 
 }
 
 func (e *Engine) assign1(lhs, rhs []ast.Expr, tok token.Token, stmt ast.Stmt, in []*State) []*State {
+	simple := tok == token.ASSIGN || tok == token.DEFINE
+	// b := <compound boolean expression>: the two outcomes are kept apart, so a later `if b` knows what held
+	if simple && len(lhs) == 1 && len(rhs) == 1 && e.compoundBool(rhs[0]) {
+		if id, ok := ast.Unparen(lhs[0]).(*ast.Ident); ok && id.Name != "_" {
+			if o := objOf(e.Info, id); o != nil && !e.noFacts[o] {
+				t, f := e.cond(rhs[0], in)
+				in = e.lhsSub(lhs[0], append(t, f...))
+				nt := len(t)
+				i := 0
+				return e.hookEach(in, func(st *State) *State {
+					v := &Fact{HasEq: true, Eq: "false"}
+					if i < nt {
+						v.Eq = "true"
+					}
+					i++
+					return e.assignCore(st, lhs, rhs, tok, stmt, []*Fact{v})
+				})
+			}
+		}
+	}
 	for _, r := range rhs {
 		in = e.expr(r, in)
 	}
 	for _, l := range lhs {
 		in = e.lhsSub(l, in)
 	}
-	return e.hookEach(in, func(st *State) *State {
-		if n := e.Client.PreAssign(e, st, lhs, rhs, stmt); n != nil {
-			st = n
-		}
-		simple := tok == token.ASSIGN || tok == token.DEFINE
-		var vals []*Fact
-		if simple && len(lhs) == len(rhs) {
-			for _, r := range rhs {
-				vals = append(vals, e.valueOf(st, r))
-			}
-		}
-		// len(x) after x = append(x, ...) grows; after x = x[:len(x)-1] shrinks: handled by kill (len key depends on x).
-		var lenAfter []*int64
-		var aliases []*keyInfo
-		if simple && len(lhs) == len(rhs) {
-			for i, r := range rhs {
-				lenAfter = append(lenAfter, e.lenLowerBound(st, lhs[i], r))
-				aliases = append(aliases, e.aliasTarget(st, r))
-			}
-		}
-		var okAlias *keyInfo
-		if simple && len(lhs) == 2 && len(rhs) == 1 {
-			if ta, ok := ast.Unparen(rhs[0]).(*ast.TypeAssertExpr); ok {
-				okAlias = e.aliasTarget(st, ta)
-			}
-		}
-		for _, l := range lhs {
-			st = e.killTarget(st, l)
-		}
-		if okAlias != nil {
-			st = e.setAlias(st, lhs[0], okAlias)
-		}
-		if simple && len(lhs) == len(rhs) {
-			for i, l := range lhs {
-				if aliases[i] != nil {
-					st = e.setAlias(st, l, aliases[i])
+	return e.hookEach(in, func(st *State) *State { return e.assignCore(st, lhs, rhs, tok, stmt, nil) })
+}
+
+// compoundBool: a non-constant boolean expression built from comparisons, !, && and ||.
+func (e *Engine) compoundBool(x ast.Expr) bool {
+	x = ast.Unparen(x)
+	tv, ok := e.Info.Types[x]
+	if !ok || tv.Value != nil {
+		return false
+	}
+	b, isBasic := tv.Type.Underlying().(*types.Basic)
+	if !isBasic || b.Info()&types.IsBoolean == 0 {
+		return false
+	}
+	switch v := x.(type) {
+	case *ast.BinaryExpr:
+		return true
+	case *ast.UnaryExpr:
+		return v.Op == token.NOT
+	}
+	return false
+}
+
+// assignCore is the effect of one assignment on one state (sub-expressions are already evaluated).
+// forced, if given, replaces what is known about the assigned values.
+func (e *Engine) assignCore(st *State, lhs, rhs []ast.Expr, tok token.Token, stmt ast.Stmt, forced []*Fact) *State {
+	if n := e.Client.PreAssign(e, st, lhs, rhs, stmt); n != nil {
+		st = n
+	}
+	simple := tok == token.ASSIGN || tok == token.DEFINE
+	// a, b := f() with f interpreted in place: the values are those of its result variables
+	origRhs := rhs
+	if simple && len(rhs) == 1 && len(lhs) > 1 {
+		if call, ok := ast.Unparen(rhs[0]).(*ast.CallExpr); ok {
+			if ids := e.inlined[call]; len(ids) == len(lhs) {
+				rhs = make([]ast.Expr, len(ids))
+				for i, id := range ids {
+					rhs[i] = id
 				}
-				k := e.canon(st, l)
-				if !k.OK {
-					continue
+			}
+		}
+	}
+	var vals []*Fact
+	if simple && len(lhs) == len(rhs) {
+		for _, r := range rhs {
+			vals = append(vals, e.valueOf(st, r))
+		}
+		if forced != nil {
+			vals = forced
+		}
+	}
+	// len(x) after x = append(x, ...) grows; after x = x[:len(x)-1] shrinks: handled by kill (len key depends on x).
+	var lenAfter []*int64
+	var aliases []*keyInfo
+	if simple && len(lhs) == len(rhs) {
+		for i, r := range rhs {
+			lenAfter = append(lenAfter, e.lenLowerBound(st, lhs[i], r))
+			aliases = append(aliases, e.aliasTarget(st, r))
+		}
+	}
+	var okAlias *keyInfo
+	if simple && len(lhs) == 2 && len(rhs) == 1 {
+		if ta, ok := ast.Unparen(rhs[0]).(*ast.TypeAssertExpr); ok {
+			okAlias = e.aliasTarget(st, ta)
+		}
+	}
+	for _, l := range lhs {
+		st = e.killTarget(st, l)
+	}
+	if okAlias != nil {
+		st = e.setAlias(st, lhs[0], okAlias)
+	}
+	if simple && len(lhs) == len(rhs) {
+		for i, l := range lhs {
+			if aliases[i] != nil {
+				st = e.setAlias(st, l, aliases[i])
+			}
+			k := e.canon(st, l)
+			if !k.OK {
+				continue
+			}
+			if v := vals[i]; v != nil {
+				if n := e.update(st, k, func(f *Fact) {
+					f.Nil, f.HasEq, f.Eq, f.Ne, f.Lo, f.Hi, f.TyIn, f.TyOut, f.Tags = v.Nil, v.HasEq, v.Eq, v.Ne, v.Lo, v.Hi, v.TyIn, v.TyOut, v.Tags
+				}); n != nil {
+					st = n
 				}
-				if v := vals[i]; v != nil {
-					if n := e.update(st, k, func(f *Fact) {
-						f.Nil, f.HasEq, f.Eq, f.Ne, f.Lo, f.Hi, f.TyIn, f.TyOut, f.Tags = v.Nil, v.HasEq, v.Eq, v.Ne, v.Lo, v.Hi, v.TyIn, v.TyOut, v.Tags
-					}); n != nil {
-						st = n
+			}
+			if lb := lenAfter[i]; lb != nil {
+				lk := k
+				lk.Key = "len(" + k.Key + ")"
+				if n := e.update(st, lk, func(f *Fact) {
+					if f.Lo == nil || *f.Lo < *lb {
+						f.Lo = lb
 					}
-				}
-				if lb := lenAfter[i]; lb != nil {
-					lk := k
-					lk.Key = "len(" + k.Key + ")"
-					if n := e.update(st, lk, func(f *Fact) {
-						if f.Lo == nil || *f.Lo < *lb {
-							f.Lo = lb
-						}
-					}); n != nil {
-						st = n
-					}
+				}); n != nil {
+					st = n
 				}
 			}
 		}
-		if simple && len(lhs) == 2 && len(rhs) == 1 {
-			st = e.commaOK(st, lhs, rhs[0])
-		}
-		if n := e.Client.PostAssign(e, st, lhs, rhs, stmt); n != nil {
-			st = n
-		}
-		return st
-	})
+	}
+	if simple && len(lhs) == 2 && len(rhs) == 1 {
+		st = e.commaOK(st, lhs, rhs[0])
+	}
+	if n := e.Client.PostAssign(e, st, lhs, origRhs, stmt); n != nil {
+		st = n
+	}
+	return st
 }
 
 // lenLowerBound: for `x = append(y, a, b)` returns len(y).Lo + #args; for a slice/map literal its length.
